@@ -201,6 +201,15 @@ resp0_ctx_send(void *arg, nni_aio *aio)
 		return;
 	}
 
+	if (ctx->saio != NULL) {
+		// A response sent earlier on this context is still waiting
+		// for its pipe, and the context can wait with only one.
+		nni_mtx_unlock(&s->mtx);
+		nni_msg_header_clear(msg);
+		nni_aio_finish_error(aio, NNG_ESTATE);
+		return;
+	}
+
 	ctx->saio  = aio;
 	ctx->spipe = p;
 	nni_list_append(&p->sendq, ctx);
